@@ -9,7 +9,7 @@ Record tcase := {
   explicit : bool;        (* true: one explicit C API transaction (ndb_begin_write .. ndb_txn_commit); false: ndb_execute_write per statement *)
   stmts : list stmt;
   impl_status : list bool;                 (* NDB_OK per statement *)
-  impl_nodes : list (Z * list (N * Z));    (* dump after commit *)
+  impl_nodes : list (Z * list N * list (N * Z));    (* dump after commit: key, labels, properties *)
   impl_edges : list (Z * Z)
 }.
 
